@@ -41,6 +41,7 @@ type rawPeer struct {
 
 	memfd      bool
 	version    uint8 // version stamped on the events this peer sends
+	announce   uint8 // client role: version announced in the first message (0: the usual one, 3 resp. 2 for c2f)
 	queuePath  string
 	bufferPath string
 	qm         *queueManager
@@ -575,8 +576,10 @@ func rawScript(kind string) []rawStep {
 	switch kind {
 	case "c3m":
 		return []rawStep{
-			sendBytes(">Exchange", false, func(r *rawPeer) []byte { return rawEvent(maxSupportProtoVersion, typeExchangeProtoVersion) }),
-			recvType("<Exchange", typeExchangeProtoVersion),
+			sendBytes(">Exchange", false, func(r *rawPeer) []byte {
+				return rawEvent(r.announced(maxSupportProtoVersion), typeExchangeProtoVersion)
+			}),
+			{Name: "<Exchange", run: rawRecvExchangeReply},
 			sendBytes(">MetaMemfd", true, func(r *rawPeer) []byte {
 				return rawMetadata(typeShareMemoryByMemfd, r.version, r.queuePath, r.bufferPath)
 			}),
@@ -588,8 +591,10 @@ func rawScript(kind string) []rawStep {
 		}
 	case "c3f":
 		return []rawStep{
-			sendBytes(">Exchange", false, func(r *rawPeer) []byte { return rawEvent(maxSupportProtoVersion, typeExchangeProtoVersion) }),
-			recvType("<Exchange", typeExchangeProtoVersion),
+			sendBytes(">Exchange", false, func(r *rawPeer) []byte {
+				return rawEvent(r.announced(maxSupportProtoVersion), typeExchangeProtoVersion)
+			}),
+			{Name: "<Exchange", run: rawRecvExchangeReply},
 			sendBytes(">MetaFile", true, func(r *rawPeer) []byte {
 				return rawMetadata(typeShareMemoryByFilePath, r.version, r.queuePath, r.bufferPath)
 			}),
@@ -598,7 +603,7 @@ func rawScript(kind string) []rawStep {
 	case "c2f":
 		return []rawStep{
 			sendBytes(">MetaFile", true, func(r *rawPeer) []byte {
-				return rawMetadata(typeShareMemoryByFilePath, 2, r.queuePath, r.bufferPath)
+				return rawMetadata(typeShareMemoryByFilePath, r.announced(2), r.queuePath, r.bufferPath)
 			}),
 		}
 	case "s3m":
@@ -660,6 +665,27 @@ func rawScript(kind string) []rawStep {
 		}
 	}
 	panic("rawScript: unknown kind " + kind)
+}
+
+// announced: the version a client script puts into its first message.
+func (r *rawPeer) announced(def uint8) uint8 {
+	if r.announce != 0 {
+		return r.announce
+	}
+	return def
+}
+
+// rawRecvExchangeReply: a client reads the server's version and settles on min(own, server's) for everything it sends
+// afterwards, as a client that really supports `announce` would.
+func rawRecvExchangeReply(r *rawPeer, to time.Duration) error {
+	h, err := r.expectHeader(typeExchangeProtoVersion, to)
+	if err != nil {
+		return err
+	}
+	if v := uint8(minInt(int(r.announced(maxSupportProtoVersion)), int(h.Version()))); v != 0 {
+		r.version = v
+	}
+	return nil
 }
 
 // doStep executes one step completely.
@@ -824,6 +850,62 @@ func (r *rawPeer) drainOwnSendQueue() {
 			}
 		}
 	}
+}
+
+// awaitStream reads what the library end sends (polling events -> drain the queue, fallback data events, stream close
+// events) until `want` bytes of streamID have arrived and, if wantClose, its close has been seen. The time-out is a watchdog.
+func (r *rawPeer) awaitStream(streamID uint32, want int, wantClose bool, timeout time.Duration) (data []byte, viaSocket int, closed bool, err error) {
+	deadline := time.Now().Add(timeout)
+	for len(data) < want || (wantClose && !closed) {
+		left := time.Until(deadline)
+		if left <= 0 {
+			return data, viaSocket, closed, errRawTimeout
+		}
+		var h header
+		if h, err = r.recvHeader(left); err != nil {
+			return
+		}
+		switch h.MsgType() {
+		case typePolling:
+			var msgs []rawShmMsg
+			if msgs, err = r.shmPopAll(); err != nil {
+				return
+			}
+			for _, m := range msgs {
+				if m.ID != streamID {
+					continue
+				}
+				if streamState(m.State) == streamClosed {
+					closed = true
+				} else {
+					data = append(data, m.Data...)
+				}
+			}
+		case typeFallbackData:
+			if h.Length() < headerSize+8 || h.Length() > 1<<24 {
+				return data, viaSocket, closed, fmt.Errorf("rawpeer: fallback event length %d", h.Length())
+			}
+			body := make([]byte, h.Length()-headerSize)
+			if err = r.readFull(body, left); err != nil {
+				return
+			}
+			if binary.BigEndian.Uint32(body[:4]) == streamID {
+				viaSocket++
+				data = append(data, body[8:]...)
+			}
+		case typeStreamClose:
+			body := make([]byte, 4)
+			if err = r.readFull(body, left); err != nil {
+				return
+			}
+			if binary.BigEndian.Uint32(body) == streamID {
+				closed = true
+			}
+		default:
+			return data, viaSocket, closed, fmt.Errorf("rawpeer: unexpected event %s", h.MsgType().String())
+		}
+	}
+	return
 }
 
 // rawRoundTrip sends payload on streamID through shared memory to a library *server* that echoes, and returns the
